@@ -116,6 +116,10 @@ class Acc:
                 continue
             ok = okmap.get(i, 0) == 1
             if not ok:
+                self.shrunk = getattr(self, "shrunk", 0) + 1
+                small = shrink(fmt, rec) if self.shrunk <= 12 else None
+                if small is not None:
+                    rec, expected, obs = small
                 what = (f"{fmt} reader returned {show(obs)} for a document denoting {expected}")
                 v = dict(rec)
                 v.update({"kind": fmt + "-times", "what": what[:400], "format": fmt, "expected": expected,
@@ -124,6 +128,46 @@ class Acc:
             elif model is not None and not (isinstance(obs, Ok) and isinstance(model, Ok) and obs.v == model.v):
                 self.res["disagreements"].append({"format": fmt, "input": rec, "impl": show(obs), "model": show(model)})
         self.pending = []
+
+
+SHRINK = {"srt": (100, 1), "vtt": (101, 3), "mdvd": (102, 2)}
+
+
+def shrink(fmt, rec):
+    """try the one-cue sub-documents; return (rec, expected, obs) of the first one that still violates"""
+    try:
+        d = unplain(rec["input"])
+        if fmt in SHRINK:
+            code, k = SHRINK[fmt]
+            cues = d[k]
+            if len(cues) <= 1:
+                return None
+            subs = [d[:k] + [[c]] + d[k + 1:] for c in cues]
+            outs = oracle_batch([(code, x) for x in subs])
+            opts = tuple(rec["opts"]) if fmt == "vtt" else None
+            for x, o in zip(subs, outs):
+                obs = read_with(fmt, o[0], opts)
+                exp = o[2]
+                if exp == [] and isinstance(obs, Err) and obs.code == 1:
+                    continue
+                if oracle1(105, [exp, obs]) != 1 if isinstance(obs, (Ok, Err)) and not (
+                        isinstance(obs, Ok) and isinstance(obs.v, tuple)) else True:
+                    return {"input": plain(x), "document": o[0], "opts": rec["opts"]}, exp, obs
+        if fmt == "dfxp":
+            ps = d
+            if len(ps) <= 1:
+                return None
+            outs = oracle_batch([(103, [p]) for p in ps])
+            for p, o in zip(ps, outs):
+                b, e, dd = [x[0] if x else None for x in o[0][0]]
+                doc = tg.dfxp_doc([("en", [(b, e, dd, "text")])])
+                obs = read_with("dfxp", doc, lang="en")
+                if not isinstance(obs, (Ok, Err)) or (isinstance(obs, Ok) and isinstance(obs.v, tuple)) or \
+                        oracle1(105, [o[2], obs]) != 1:
+                    return {"input": plain([p]), "document": doc, "opts": None}, o[2], obs
+    except Exception:  # shrinking is best effort
+        return None
+    return None
 
 
 def show(o):
